@@ -106,6 +106,19 @@ func (e *Encoder) checkEncodeRefMap(v reflect.Value) (int, bool) {
 		}
 	}
 
+	// nil and empty slices all share one address: they have no identity to refer
+	// back to, but each still takes the ordinal the decoder gives to its list
+	if kind == reflect.Slice {
+		sv := v
+		if sv.Kind() == reflect.Ptr {
+			sv = sv.Elem()
+		}
+		if sv.Len() == 0 {
+			e.refCount++
+			return 0, false
+		}
+	}
+
 	if elem, ok := e.refMap[addr]; ok {
 		// the array addr is equal to the first elem, which must ignore
 		if elem.kind == kind {
@@ -115,7 +128,8 @@ func (e *Encoder) checkEncodeRefMap(v reflect.Value) (int, bool) {
 		return 0, false
 	}
 
-	n := len(e.refMap)
+	n := e.refCount
+	e.refCount++
 	e.refMap[addr] = _refElem{kind, n}
 	// fmt.Printf("---> add ref: %d, %p, %v, %v\n", n, addr, kind, v)
 	return 0, false
